@@ -9,10 +9,12 @@ package criteria_mixing
 
 //@ func (*CriteriaMixingParams).validate
 //@   property C18 C20 C07 C09 C01
+//@   indexsafe
 //@   panics_iff [ratio] !(0.0 <= p.MixingRatio && p.MixingRatio <= 1.0)
 
 //@ func selectCriteriaToMix
 //@   property C18 C07 C20 C09 C01
+//@   indexsafe
 //@   fnparam generator ensures 0.0 <= result && result < 1.0
 //@   requires len(params.Criteria) >= 2
 //@   nopanic
@@ -21,10 +23,12 @@ package criteria_mixing
 
 //@ func (*criteriaToMix).criterion
 //@   property C18 C07 C20 C09 C01
+//@   indexsafe
 //@   ensures [gain_with_target_range] result.Type == model.Gain && result.ValuesRange == valRange
 
 //@ func (*criteriaToMix).mix
 //@   property C18 C07 C20 C09 C01
+//@   indexsafe
 //@   ensures [components] result.c1 != nil && result.c2 != nil && fresh(result) && fresh(result.result)
 //@   ensures [formula] forall a string :: a in result.c1 ==> a in result.c2 && a in result.result && result.result[a] == mixed(props.MixingRatio, result.c1[a], result.c2[a])
 //@   ensures [only] forall a string :: a in result.result ==> a in result.c1
@@ -44,12 +48,14 @@ package criteria_mixing
 
 //@ func referenceCriterion
 //@   property C18 C07 C20 C09 C01
+//@   indexsafe
 //@   requires model.distinctCriteria(params.Criteria) && len(params.Criteria) > 0
 //@   requires model.validParams(*listener, params.MethodParameters) && model.coversAll(*listener, params.MethodParameters, params.Criteria)
 //@   ensures [is_existing_criterion] result != nil && exists j int :: 0 <= j && j < len(params.Criteria) && *result == params.Criteria[j]
 
 //@ func updateAlternatives
 //@   property C18 C07 C20 C09 C01
+//@   indexsafe
 //@   ensures [shape] fresh(result) && fresh(*result) && len(*result) == len(allAlternatives)
 //@   ensures [extended] forall i int :: 0 <= i && i < len(allAlternatives) ==> model.extendedBy((*result)[i], allAlternatives[i], newCriterion.Id) && fresh((*result)[i].Criteria)
 
@@ -61,6 +67,7 @@ package criteria_mixing
 //@             && model.isRescaledOf(mixResult.c2, c2m.c2, addr(allAlternatives), targetValRange)
 //@             && len(allAlternatives) == len(current.ConsideredAlternatives) + len(current.NotConsideredAlternatives))
 //@   property C18 C07 C01 C09 C20
+//@   indexsafe
 //@   requires model.coherent(*listener, *current) && model.coherent(*listener, *original) && len(original.Criteria) > 0
 //@   requires forall i int, j int :: 0 <= i && i < j && j < len(current.ConsideredAlternatives) ==> current.ConsideredAlternatives[i].Id != current.ConsideredAlternatives[j].Id
 //@   requires forall i int, j int :: 0 <= i && i < j && j < len(current.NotConsideredAlternatives) ==> current.NotConsideredAlternatives[i].Id != current.NotConsideredAlternatives[j].Id
@@ -80,12 +87,14 @@ package criteria_mixing
 // parseProps: the ratio is the requested one (0.5 when omitted) and it is validated AFTER decoding
 //@ func parseProps
 //@   property C20 C18 C09 C01 C07
+//@   indexsafe
 //@   ensures [requested_ratio_validated] fresh(result) && result.MixingRatio == (decoded_has(*props, "MixingRatio") ? decoded_real(*props, "MixingRatio") : 0.5)
 //@             && 0.0 <= result.MixingRatio && result.MixingRatio <= 1.0
 
 // the registered object holds exactly the collaborators it was built with, each in its own role
 //@ func NewCriteriaMixing
 //@   property C18 C09 C07 C20
+//@   indexsafe
 //@   nopanic
 //@   ensures [wired_as_given] result != nil && fresh(result) && result.generatorSource == generatorSource && result.referenceCriteriaManager == referenceCriteriaManager
 
@@ -111,6 +120,7 @@ package criteria_mixing
 // ---- registered names (what a request must say to select this object; what error messages list)
 //@ func (*CriteriaMixing).Identifier
 //@   property C07 C18 C20 C01 C03 C04 C05 C06 C08 C09 C11 C12 C13 C14 C15 C16 C17 C19
+//@   indexsafe
 //@   nopanic
 //@   ensures [name] result == "criteriaMixing"
 
@@ -125,6 +135,7 @@ package criteria_mixing
 //@             && (forall i int :: 0 <= i && i < len(params.NotConsideredAlternatives) ==> result.NotConsideredAlternatives[i].Id == params.NotConsideredAlternatives[i].Id)
 //@ func prepareMixedCriterion
 //@   property C18 C09 C07 C20 C01
+//@   indexsafe
 //@   nopanic
 //@   ensures [report] result.Component1.Id == c2m.c1.Id && result.Component1.Type == c2m.c1.Type && result.Component1.ScaledValues == mixResult.c1
 //@             && result.Component2.Id == c2m.c2.Id && result.Component2.Type == c2m.c2.Type && result.Component2.ScaledValues == mixResult.c2
